@@ -58,6 +58,9 @@ func Current() *Run { return current }
 // under test is in a state where every further unit would only repeat a long wait.
 func (r *Run) Abort() { r.aborted.Store(true) }
 
+// Aborted reports whether Abort was called (long units poll it between their own steps).
+func (r *Run) Aborted() bool { return r.aborted.Load() }
+
 func Start(property, level string) *Run {
 	r := &Run{Property: property, Level: level, Tier: "quick", Seed: 1, Only: -1, start: time.Now(),
 		counts: map[string]int64{}, sets: map[string]map[string]struct{}{}, viol: map[string]*Violation{},
